@@ -39,7 +39,7 @@ META = {
     "design_ref": "DESIGN.md §3 C07",
     "engines": ["sched"],
 }
-REQUIRED = ("appends", "reads", "reads_overlapping_a_partial_record", "schedules", "lines_hit", "process_rounds", "thread_rounds", "stalled_chunk_schedules", "construction_lines_hit", "schedules_on_a_journal_with_a_torn_tail")
+REQUIRED = ("appends", "reads", "reads_overlapping_a_partial_record", "schedules", "lines_hit", "process_rounds", "thread_rounds", "stalled_chunk_schedules", "construction_lines_hit", "schedules_on_a_journal_with_a_torn_tail", "lock_handover_scenarios_judged")
 SHARDS = {"quick": 12, "thorough": 16}
 WATCHDOG_S = {"quick": 1200, "thorough": 4 * 3600}
 BUDGET_S = {"quick": 60, "thorough": 1800}
@@ -578,6 +578,101 @@ def construct_schedules(ctx: Ctx, s: sched.Sched, lockname: str) -> None:
                 events.append(("X", wk, "follow-up call", e))
         judge_round(ctx, path, events, [a, b], facts, case)
 
+def lock_handover_scenario(ctx: Ctx, lockname: str, idx: int) -> None:
+    """A waiter keeps waiting while the lock changes hands between two LIVE holders; its total wait exceeds the grace period but
+    no single holder held the lock that long: the waiter must not force-release the second holder's lock.  The module's clock is
+    virtual (time.sleep advances it; 1 ms real per sleep), grace_period = 30 virtual seconds."""
+    import optuna.storages.journal._file as F
+
+    uninstall_chunked_open()
+    d = mktemp_dir("vf-c07h-")
+    path = f"{d}/j.log"
+    with builtins.open(path, "wb") as f0:
+        f0.write(b'{"w":9,"n":0}\n')
+    cls = {"symlink": F.JournalFileSymlinkLock, "open": F.JournalFileOpenLock}[lockname]
+
+    class VClock:
+        now = 0.0
+        lock = threading.Lock()
+
+        def monotonic(self):
+            return VClock.now
+
+        def sleep(self, x):
+            with VClock.lock:
+                VClock.now += x
+            time.sleep(0.001)
+
+        def __getattr__(self, name):
+            return getattr(time, name)
+
+    real = F.time
+    F.time = VClock()
+    try:
+        h1, h2, w = cls(path, grace_period=30), cls(path, grace_period=30), cls(path, grace_period=30)
+        h1.acquire()
+        w_got = threading.Event()
+        tw = threading.Thread(target=lambda: (w.acquire(), w_got.set()), name="W", daemon=True)
+        tw.start()
+
+        def wait_until(t_virtual: float) -> None:
+            for _ in range(20000):
+                if VClock.now >= t_virtual or w_got.is_set():
+                    return
+                time.sleep(0.0005)
+
+        wait_until(20.0)
+        with builtins.open(path, "ab") as f0:      # the first holder did its append, then releases
+            f0.write(b'{"w":9,"n":1}\n')
+        h2_got = threading.Event()
+        h1.release()
+        th2 = threading.Thread(target=lambda: (h2.acquire(), h2_got.set()), name="H2", daemon=True)
+        th2.start()
+        for _ in range(4000):
+            if h2_got.is_set() or w_got.is_set():
+                break
+            time.sleep(0.0005)
+        ctx.count("lock_handover_scenarios")
+        case = {"mode": "lock_changes_hands_while_a_waiter_waits", "lock": lockname, "index": idx, "seed": ctx.seed}
+        if w_got.is_set() or not h2_got.is_set():
+            # legitimate: the waiter got the lock in the gap between release and re-acquire (the second holder now waits on the
+            # virtual clock too, so nothing further can be concluded from this run)
+            ctx.count("lock_handover_waiter_won_the_handover")
+            F.time = real
+            for lk_ in (w, h2):
+                try:
+                    lk_.release()
+                except RuntimeError:
+                    pass
+            th2.join(5)
+            tw.join(5)
+            for lk_ in (w, h2):
+                try:
+                    lk_.release()
+                except RuntimeError:
+                    pass
+            return
+        t_h2 = VClock.now
+        wait_until(t_h2 + 25.0)       # the waiter has now waited > 30 s in total, but < 30 s on the second holder's lock
+        stolen = w_got.is_set()
+        ctx.case(case, True)
+        ctx.count("lock_handover_scenarios_judged")
+        if stolen:
+            ctx.violation({"mode": "lock_changes_hands_while_a_waiter_waits", "lock": lockname, "kind": "two_lock_holders"},
+                          f"the waiter force-released a lock its live holder had held for only {VClock.now - t_h2:.1f} virtual s (grace period 30 s): two holders", case)
+        try:
+            h2.release()
+        except RuntimeError:
+            pass
+        tw.join(5)
+        if w_got.is_set():
+            try:
+                w.release()
+            except RuntimeError:
+                pass
+    finally:
+        F.time = real
+
 
 def run(ctx: Ctx) -> None:
     ctx.rule = ("(a) thread rounds, (b) process rounds (one case each), (c) one schedule per (lock class, call pair, paused line, stalled-chunk flag, "
@@ -599,6 +694,10 @@ def run(ctx: Ctx) -> None:
         if ctx.shard[0] % 4 == 1 or ctx.shard[1] == 1:
             for lk in ("symlink", "open"):
                 construct_schedules(ctx, s, lk)
+        if ctx.shard[0] % 4 == 2 or ctx.shard[1] == 1:
+            for i in range(ctx.pick(2, 10)):
+                for lk in ("symlink", "open"):
+                    lock_handover_scenario(ctx, lk, i)
         for i in range(ctx.pick(10, 120)):
             thread_round(ctx, s, ctx.rng("round", ctx.shard[0], i), i + 1000 * ctx.shard[0])
     finally:
@@ -618,6 +717,9 @@ def replay(ctx: Ctx, w: dict) -> None:
         if c["mode"] == "single_preemption":
             ctx.tier = "thorough"
             enumerate_schedules(ctx, s, ctx.rng("replay"), c["lock"], c["A"], c["B"], bool(c["B_stalled_after_first_chunk"]), bool(c["journal_aged"]), bool(c.get("torn_tail")))
+        elif c["mode"] == "lock_changes_hands_while_a_waiter_waits":
+            for i in range(3):
+                lock_handover_scenario(ctx, c["lock"], i)
         elif c["mode"] == "concurrent_construction":
             construct_schedules(ctx, s, c["lock"])
         elif c["mode"] == "threads":
